@@ -40,6 +40,22 @@ CLAIMED = {
        "lengths), rendered bytes and to_packets results incl. error classes; zlib.crc32 is not modelled - the model's CRC is the RFC's.",
   technique="Lean 4 proof (loop invariants of from_packets by fun_induction) + page-layout correspondence + independent RFC 3533 walker",
   ref="DESIGN.md §5 C15"),
+ "C18": dict(
+  text="Lean 4 theorems (Props/C18.lean): (1) pick_perm - for every valuation of the observations and every candidate list, File()'s choice "
+       "(maximum of (score, class name)) is invariant under permutation of the options (proved generically, names shown distinct with and without "
+       "easy=True and rank shown to be Python's name order); (2) pick_stable / pick_stable_easy / pick_stable_any_order - for every concrete format and "
+       "EVERY feature state a well-formed file of it can be in before or after edits through that type (prefix magic incl. ID3 prefix, own markers "
+       "in the 128-byte window, every extension the type's score looks at in exact and other letter case, nameless where the magic stays at offset 0, "
+       "with/without APEv2 trailer) the regenerated score functions make File() choose that format, decided in the kernel (decide +kernel) over the "
+       "finite state space and re-decided whenever a score function changes (Generated/Scores.lean is translated from the K.score sources on every "
+       "run). Tie: each real K.score vs the generated expression on every observed file state, type(File(f)) vs pick (plain, easy, permuted), and "
+       "membership of the observed valuation in the modelled state space.",
+  note="Trusted: Lean kernel; axioms propext/Quot.sound/Classical.choice; extract.py's score translator (restricted expression language; anything else "
+       "= broken tie); the hand-written feature model `shapes` of the formats' magic bytes (validated against all sample files and their edit "
+       "histories); ASCII case folding (str.lower() on non-ASCII names is outside the model); the property's own assumption that tag text embeds "
+       "no foreign marker in the first 128 bytes. Raw AAC with a foreign APEv2 trailer is excluded (detected as the generic APEv2File fallback).",
+  technique="Lean 4 proof (generic max/permutation lemma + kernel-decided decision table regenerated from source) + score/pick correspondence",
+  ref="DESIGN.md §5 C18"),
 }
 
 PENDING_REASON = "not claimed yet in this revision: the Lean model and theorems for this property are still being built (see DESIGN.md §7 build order); it is not 'not applicable' in principle"
